@@ -120,7 +120,7 @@ pub open spec fn name_token(name: Identifier, offset: usize, ts: Seq<Token>) -> 
 
 // ---------- the per-token closures of the declaration walks (R6: lifted, body verbatim)
 //~assume the closures of collect_type_dec / collect_error are applied to every token of the declaration's slice in order (iter().filter_map(); R6); `previous_token_pos` is the position of the last emitted token
-//~not_decided identifier kinds inside procedures (symbol table lookup: HashMap) and the order across global declarations (iterator in the async handler)
+//~not_decided which entries the symbol table holds for a procedure (table/build.rs: HashMap) and the order across global declarations (iterator in the async handler)
 //@extract lsp4spl/src/features/semantic_tokens.rs :: fn collect_type_dec :: closure |token|
 //@ rewrite range_eq_deref
 //@ lift pub fn collect_type_dec_closure(token: &Token, name_range: &Option<Range<usize>>, text: &str, previous_token_pos: &mut Position) -> (r: Option<SemanticToken>)
@@ -145,6 +145,64 @@ pub open spec fn name_token(name: Identifier, offset: usize, ts: Seq<Token>) -> 
         ((r is Some) == (class_of(token.token_type) is Some)) && (r is Some ==> r->0.token_type == class_of(token.token_type)->0 && r->0.token_modifiers_bitset == 0), //# collect_error::lexical_class
 //@end
 
+// ---------- identifiers inside a procedure: kind by the entity the symbol table binds the name to
+// R7 stand-ins: the symbol table is HashMap based; only `lookup` is used
+pub struct LookupTable<'a> { pub opaque: &'a u8 }
+pub struct LocalTable { pub opaque: u8 }
+//@extract spl_frontend/src/table.rs :: enum DataType
+//@ rewrite drop_derive
+//@end
+//@extract spl_frontend/src/table.rs :: struct TypeEntry
+//@ rewrite drop_derive
+//@end
+//@extract spl_frontend/src/table.rs :: struct ProcedureEntry
+//@ rewrite drop_derive
+//@end
+//@extract spl_frontend/src/table.rs :: struct VariableEntry
+//@ rewrite drop_derive
+//@end
+//@extract spl_frontend/src/table.rs :: enum Entry
+//@ rewrite drop_derive
+//@end
+pub uninterp spec fn lookup_spec<'a>(table: LookupTable<'a>, key: Seq<char>) -> Option<Entry<'a>>;
+//~assume LookupTable::lookup (HashMap, closures) is abstract: it returns `lookup_spec(table, key)`; that the table handed to collect_proc_dec is the one of the enclosing procedure is not decided
+//@extract spl_frontend/src/table.rs :: impl<'a> LookupTable<'a> :: fn lookup
+//@ ret r
+//@ sig
+        ensures r == lookup_spec(*self, key@),
+//@ assume_body fn lookup
+//@end
+//~assume Vec<Range<usize>>::contains (slice::contains, PartialEq for Range) holds iff some element has the same start and end
+#[verifier::external_body]
+pub fn ranges_contain(v: &Vec<Range<usize>>, r: &Range<usize>) -> (b: bool)
+    ensures b == exists|i: int| 0 <= i < v@.len() && v@[i] == *r,
+{ v.contains(r) }
+/// legend kind of a bound identifier: type 3, function 4, parameter 5, variable 6
+pub open spec fn kind_of(e: Entry) -> u32 {
+    match e { Entry::Type(_) => 3u32, Entry::Procedure(_) => 4u32, Entry::Parameter(_) => 5u32, Entry::Variable(_) => 6u32 }
+}
+pub open spec fn is_local(e: Entry) -> bool { e is Parameter || e is Variable }
+pub open spec fn in_ranges(v: Seq<Range<usize>>, r: Range<usize>) -> bool { exists|i: int| 0 <= i < v.len() && v[i] == r }
+//@extract lsp4spl/src/features/semantic_tokens.rs :: fn collect_proc_dec :: closure |token|
+//@ rewrite range_eq_deref map_inline ranges_contain
+//@ lift pub fn collect_proc_dec_closure<'a>(token: &Token, name_range: &Option<Range<usize>>, local_declarations: &Vec<Range<usize>>, lookup_table: &LookupTable<'a>, text: &str, previous_token_pos: &mut Position) -> (r: Option<SemanticToken>)
+//@ sig
+    requires token_ok(*token, *old(previous_token_pos), text@),
+    ensures
+        r is Some ==> coincides(r->0, *token, *old(previous_token_pos), text@) && *final(previous_token_pos) == pos_of(token.range.start, text@), //# collect_proc_dec::emitted_token_coincides_and_state_advances
+        r is None ==> *final(previous_token_pos) == *old(previous_token_pos), //# collect_proc_dec::state_kept_when_nothing_emitted
+        // the procedure's own name: FUNCTION with the declaration bit
+        (*name_range is Some && name_range->0 == token.range) ==> r is Some && r->0.token_type == 4 && r->0.token_modifiers_bitset == 1, //# collect_proc_dec::procedure_name_is_a_declared_function
+        // any other identifier: the kind of the entity it is bound to; the declaration bit exactly on the tokens that declare a parameter or local variable
+        !(*name_range is Some && name_range->0 == token.range) && token.token_type is Ident ==> (match lookup_spec(*lookup_table, token.token_type->Ident_0@) {
+            Some(e) => r is Some && r->0.token_type == kind_of(e)
+                && r->0.token_modifiers_bitset == (if is_local(e) && in_ranges(local_declarations@, token.range) { 1u32 } else { 0u32 }),
+            None => r is None,
+        }), //# collect_proc_dec::identifier_kind_by_binding_and_declaration_bit
+        !(*name_range is Some && name_range->0 == token.range) && !(token.token_type is Ident) ==> ((r is Some) == (class_of(token.token_type) is Some)) && (r is Some ==> r->0.token_type == class_of(token.token_type)->0 && r->0.token_modifiers_bitset == 0), //# collect_proc_dec::lexical_class_otherwise
+//@end
+
+//~not_decided local_declaration_ranges (which tokens declare parameters and local variables; two loops whose invariants need existential witnesses) is not under contract: the declaration bit of parameters and variables is decided relative to the list it returns
 /// "decodes to strictly increasing tokens": if the walk visits tokens with strictly increasing start positions, the
 /// decoded positions are the tokens' positions, hence strictly increasing as well (one step of the induction)
 pub proof fn lemma_walk_step(prev: Position, t1: Token, t2: Token, s1: SemanticToken, s2: SemanticToken, text: Seq<char>)
